@@ -190,7 +190,16 @@ func (ex *Exec) evalValue(st *State, f *Frame, instr ssa.Value) Value {
 			if g, ok := in.X.(*ssa.Global); ok {
 				ex.ensureGlobal(st, g)
 			}
-			return ex.load(st, p, in)
+			v := ex.load(st, p, in)
+			// a cell written as uintptr and read as a pointer (or vice versa) through an unsafe cast
+			if t, isT := v.(*Term); isT {
+				if _, wantPtr := in.Type().Underlying().(*types.Pointer); wantPtr {
+					return ex.convert(st, t, types.Typ[types.Uintptr], types.Typ[types.UnsafePointer], in)
+				}
+			} else if pv, isP := v.(Ptr); isP && isInteger(in.Type()) {
+				return ex.convert(st, pv, types.Typ[types.UnsafePointer], types.Typ[types.Uintptr], in)
+			}
+			return v
 		case token.NOT:
 			return tb.Not(x.(*Term))
 		case token.SUB:
@@ -202,7 +211,15 @@ func (ex *Exec) evalValue(st *State, f *Frame, instr ssa.Value) Value {
 		case token.XOR:
 			return tb.Not(x.(*Term))
 		case token.ARROW:
-			panic(cutPath{"channel receive"})
+			c, _ := x.(ChanV)
+			if !ex.chanReady(st, c) {
+				panic(endPath{"receive blocks forever (sequential model)"})
+			}
+			v, ok := ex.chanTake(st, c, in.X.Type().Underlying().(*types.Chan).Elem())
+			if in.CommaOk {
+				return TupleV{v, ex.tb.Bool(ok)}
+			}
+			return v
 		}
 	case *ssa.ChangeType:
 		return ex.get(f, in.X)
@@ -613,16 +630,41 @@ func (ex *Exec) convert(st *State, x Value, from, to types.Type, instr ssa.Instr
 		return x
 	}
 	if b, ok := ut.(*types.Basic); ok && b.Kind() == types.UnsafePointer {
-		if _, isT := x.(*Term); isT {
-			return Opaque{"uintptr->unsafe.Pointer"}
+		if t, isT := x.(*Term); isT {
+			// uintptr -> pointer: only addresses handed out by the pointer -> uintptr conversion below
+			a := ex.concretize(st, t, "uintptr to pointer")
+			if a == 0 {
+				return Ptr{}
+			}
+			if p, ok := ex.addrToPtr[a]; ok {
+				return p
+			}
+			return Opaque{"uintptr->unsafe.Pointer of an unknown address"}
 		}
 		return x
 	}
 	if bf, ok := uf.(*types.Basic); ok && bf.Kind() == types.UnsafePointer {
 		if bt, ok := ut.(*types.Basic); ok && bt.Kind() == types.Uintptr {
-			// address as integer: opaque but stable per pointer
+			// address as integer: a concrete fake address, unique and stable per (object, path)
 			p, _ := x.(Ptr)
-			return tb.Var(fmt.Sprintf("addr!obj%d!%s", p.Obj, pathString(p.Path)), BV(64))
+			if p.Obj == 0 {
+				return tb.Const(0, 64)
+			}
+			if p.Sym != nil {
+				i := ex.concretize(st, p.Sym, "address of element")
+				p = Ptr{Obj: p.Obj, Path: pathAppend(p.Path, int(i))}
+			}
+			if ex.addrOf == nil {
+				ex.addrOf = map[Ptr]uint64{}
+				ex.addrToPtr = map[uint64]Ptr{}
+			}
+			a, ok := ex.addrOf[p]
+			if !ok {
+				a = 0xc000000000 + uint64(len(ex.addrOf)+1)*0x1000
+				ex.addrOf[p] = a
+				ex.addrToPtr[a] = p
+			}
+			return tb.Const(a, 64)
 		}
 		return x
 	}
